@@ -23,7 +23,12 @@ PROPS["C15"]["level_text"] += " " + (
     "(blockOK_of_header, gen_init_dist: max_distance = 0x3FFFFFC / 0x7FFFFFC, alphabet 64 / 140); gen_init_header equates the generated side with the "
     "hand-written header model. Tie: stage `window` runs the real ensure_initialized on quality -2..13 x lgwin -5..40 x large_window x mode 0..6 x "
     "preset (NPOSTFIX, NDIRECT) (47 104 configurations) and compares quality, lgwin, lgblock, the four dist fields, last_bytes_, last_bytes_bits_ and "
-    "the window read back from them with the generated composition, line by line.")
+    "the window read back from them with the generated composition, line by line. "
+    "Bounded memory: decoder_limited_to_declared_window — for EVERY window, command list and word oracle the RFC decoder replaying from a history of which all but the last "
+    "`window` (or more) bytes were discarded succeeds exactly when the full replay does and yields the full result minus the discarded bytes (decStep_drop / decSteps_drop / copyBytes_drop); "
+    "cbr_block_decodes_with_window_memory instantiates it with 2^W - 16. Quality 0/1 (stated lemmas over the fragment model): q01_declared_window_covers_table_window "
+    "(declared window >= 262128 = 2^18 - 16 = MAX_DISTANCE of the fragment writers), scan_candidate_within_table_window (every candidate the two-pass search loop returns lies within "
+    "MAX_DISTANCE of the position), applyCopy_lz77_window_mono (an LZ77 copy within a smaller window is executed identically by a decoder with any larger window).")
 
 _old_note = ("'A decoder limited to the declared window can decode the stream' is proved only as far as the parameters go (window used <= window declared); "
              "that no emitted distance exceeds that window is a property of the match finders, judged on the real code:")
@@ -33,8 +38,9 @@ _new_note = ("'A decoder limited to the declared window can decode the stream' i
              "by ring_hypothesis_of_ringOK —, block <= one input block <= ring, block <= 2^24, text < 2^64; OpsOK / DictFaithful for the hasher and the "
              "static dictionary) and per CreateBackwardReferences call = one meta-block. NOT proved in Lean: FONT mode from quality 4 on (NPOSTFIX = 1, "
              "NDIRECT = 12: PlainDist fails, the lock-step lemmas are stated for 0/0); quality 10/11 (Zopfli) and the quality 0/1 fragment writers "
-             "(their distance bound 2^18 - 16 <= declared window is the table geometry `ip - candidate > MAX_DISTANCE` of compress_fragment*.rs, not "
-             "stated here); custom dictionaries. Those, and the model-vs-code gap, are judged on the real code: stage `window` records every Copy command "
+             "(stated only as lemmas: declared window >= 2^18 - 16, the search loop's candidates lie within MAX_DISTANCE, LZ77 copies are window-monotone; "
+             "the induction through matchLoop / chain / createCommands to 'every distance word of the command buffer' — hypothesis (b) of C01Fragment — and quality 0's "
+             "compress_fragment_fast are not done); custom dictionaries. Those, and the model-vs-code gap, are judged on the real code: stage `window` records every Copy command "
              "the real encoder hands to the meta-block callback (quality 2..11 incl. Zopfli, lgwin 10..16, both header forms, inputs whose only matches "
              "lie exactly at / just inside / just beyond 2^lgwin - 16) and checks 1 <= distance <= 2^W - 16 for the W read from the stream's own header; and")
 if _old_note in PROPS["C15"]["level_note"]:
